@@ -7,6 +7,7 @@ THR = ['amp_fraction_threshold', 'amp_consistency_threshold', 'period_consistenc
 
 
 def check(rep, model, tier):
+    _doc_defaults(rep, model)
     rep.rule('LABEL-DEF', 'is_burst written by detect_bursts_cycles == run filter (C08 schema) of the conjunction of the four strict '
                           'column > own-threshold comparisons with the first and last entry forced False before filtering (normal-form equality)')
     rep.rule('KEEP-COLS', 'detect_bursts_cycles returns the input table with only the is_burst column added')
@@ -120,3 +121,8 @@ def default_keys(rep, model):
                               found=T.brief(got, 200))
             else:
                 rep.ok('DEFAULT-KEYS', f'{method}:{label}', site, found=T.brief(got, 160))
+
+
+def _doc_defaults(rep, model):
+    from . import common as _c
+    _c.doc_defaults(rep, model, ['detect_bursts_cycles'])
